@@ -284,13 +284,37 @@ static pixman_fixed_t *make_and_check(const axcfg *cx, const axcfg *cy, int enum
 /* when set (and of the same length as the block under test), the image is first given this other block and drawn from once: storing a
  * block must not depend on what the image held before */
 static const pixman_fixed_t *g_prev_block; static int g_prev_n;
+/* route: which of the library's consumers of the block delivers the samples.  0: a8r8g8b8 source, affine transform (the dedicated separable-convolution
+ * fetchers); 1: a8b8g8r8 source (no dedicated fetcher: the general per-pixel one); 2: a8r8g8b8 source read through an accessor (general, accessor variant);
+ * 3: a2r10g10b10 source holding the same colour (the float pipeline's per-pixel fetcher) */
+static uint32_t c18_acc_read(const void *p, int size) { (void)size; return *(const uint32_t *)p; }
+static void c18_acc_write(void *p, uint32_t v, int size) { (void)size; *(uint32_t *)p = v; }
+static const char *c18_route_name[4] = { "a8r8g8b8 source", "a8b8g8r8 source (general per-pixel fetcher)", "a8r8g8b8 source behind accessors", "a2r10g10b10 source (float pipeline)" };
+static int image_check_route(const pixman_fixed_t *params, int n, const axcfg *cx, const axcfg *cy, int w, int h, int tol, const char *desc0, int route);
 static int image_check(const pixman_fixed_t *params, int n, const axcfg *cx, const axcfg *cy, int w, int h, int tol, const char *desc)
 {
+    for (int route = 0; route < 4; route++) if (!image_check_route(params, n, cx, cy, w, h, tol, desc, route)) return 0;
+    return 1;
+}
+static int image_check_route(const pixman_fixed_t *params, int n, const axcfg *cx, const axcfg *cy, int w, int h, int tol, const char *desc0, int route)
+{
     uint32_t srcbits[16];
-    for (int i = 0; i < 16; i++) srcbits[i] = CONST_PIXEL;
+    char desc[200]; snprintf(desc, sizeof desc, "%s, %s", desc0, c18_route_name[route]);
+    /* the float pipeline's contract is one step of the destination (C01, C08), which is this route's tolerance.  Recorded finding
+     * c18-float-pipeline-truncates-each-tap: accum_float adds each tap's product into an INTEGER accumulator in units of 1/65536, truncating, so a
+     * constant comes out lower by up to (number of taps)/65536 - several 8-bit steps for kernels of a thousand taps.  A result is attributed to that
+     * finding only if every channel is at or below the constant and short of it by no more than that bound. */
+    int trunc_bound = 0;
+    if (route == 3) { if (tol < 1) tol = 1; trunc_bound = tol + (int)(((int64_t)w * h * 255 + 65535) / 65536); }
+    /* the constant in the source's format: a8b8g8r8 swaps r and b; a2r10g10b10 widens each channel by bit replication (alpha ff -> 3) */
+    uint32_t cpix = CONST_PIXEL;
+    if (route == 1) cpix = (CONST_PIXEL & 0xff00ff00u) | ((CONST_PIXEL >> 16) & 0xff) | ((CONST_PIXEL & 0xff) << 16);
+    if (route == 3) { uint32_t r = (CONST_PIXEL >> 16) & 0xff, g = (CONST_PIXEL >> 8) & 0xff, b = CONST_PIXEL & 0xff; cpix = 3u << 30 | (r << 2 | r >> 6) << 20 | (g << 2 | g >> 6) << 10 | (b << 2 | b >> 6); }
+    for (int i = 0; i < 16; i++) srcbits[i] = cpix;
     int dw = 1 << cx->bits, dh = 1 << cy->bits;
     int ok = 1;
-    pixman_image_t *src = pixman_image_create_bits(PIXMAN_a8r8g8b8, 4, 4, srcbits, 16);
+    pixman_image_t *src = pixman_image_create_bits(route == 1 ? PIXMAN_a8b8g8r8 : route == 3 ? PIXMAN_a2r10g10b10 : PIXMAN_a8r8g8b8, 4, 4, srcbits, 16);
+    if (src && route == 2) pixman_image_set_accessors(src, c18_acc_read, c18_acc_write);
     uint32_t *dbits = calloc((size_t)dw * dh, 4);
     pixman_image_t *dst = pixman_image_create_bits(PIXMAN_a8r8g8b8, dw, dh, dbits, dw * 4);
     if (!src || !dst || !dbits) { vf_harderr("image allocation failed"); ok = 0; goto out; }
@@ -323,6 +347,16 @@ static int image_check(const pixman_fixed_t *params, int n, const axcfg *cx, con
         int d = 0;
         for (int s = 0; s < 32; s += 8) { int e = (int)((got >> s) & 0xff) - (int)((CONST_PIXEL >> s) & 0xff); if (e < 0) e = -e; if (e > d) d = e; }
         if (d > worst) worst = d;
+        if (d > tol && route == 3) {
+            int only_lower = 1, deficit = 0;
+            for (int sh = 0; sh < 32; sh += 8) { int e = (int)((CONST_PIXEL >> sh) & 0xff) - (int)((got >> sh) & 0xff); if (e < 0) only_lower = 0; if (e > deficit) deficit = e; }
+            if (only_lower && deficit <= trunc_bound) {
+                char bx[160], by[160];
+                vf_violation("c18-float-pipeline-truncates-each-tap", "%s: constant image %08x sampled at phase (%d,%d) gives %08x: %d step(s) low with %d x %d taps (each tap's product is truncated into an integer accumulator) x[%s] y[%s]",
+                             desc, CONST_PIXEL, i, j, got, deficit, w, h, cfg_str(cx, bx, sizeof bx), cfg_str(cy, by, sizeof by));
+                ok = 0; break;
+            }
+        }
         if (d > tol) {
             char bx[160], by[160];
             vf_violation("c18-constant-not-preserved", "%s: constant image %08x sampled at phase (%d,%d) gives %08x (tolerance %d) x[%s] y[%s]", desc,
